@@ -136,6 +136,9 @@ def eval_scene(fam, scene):
         n = X.cross(X.sub(pb, pa), X.sub(pc, pa))
         e = X.Pl(pa, n)
         c = Ctx(kind, zero_pattern(X.clear(n)), scene)
+        shared = lib.use_point_elsewhere(lib.P(pa))
+        Ps = lib.call(lambda: Plane(shared, lib.P(pb), lib.P(pc)))
+        c.same_plane('Plane(shared A,B,C)', Ps, e)
         P = lib.call(lambda: Plane(lib.P(pa), lib.P(pb), lib.P(pc)))
         if c.same_plane('Plane(A,B,C)', P, e):
             for x in (pa, pb, pc):
@@ -158,9 +161,13 @@ def eval_scene(fam, scene):
         d = X.sub(q, p)
         e = X.Ln(p, d)
         c = Ctx(kind, zero_pattern(X.clear(d)), scene)
+        shared = lib.use_point_elsewhere(lib.P(p))      # the same Point object serves all later constructions
         forms = [('Line(P,Q)', lambda: Line(lib.P(p), lib.P(q))),
                  ('Line(P,v)', lambda: Line(lib.P(p), lib.V(d))),
-                 ('Line(pv,v)', lambda: Line(lib.P(p).pv(), lib.V(d)))]
+                 ('Line(pv,v)', lambda: Line(lib.P(p).pv(), lib.V(d))),
+                 ('Line(shared P,Q)', lambda: Line(shared, lib.P(q))),
+                 ('Line(shared P,v)', lambda: Line(shared, lib.V(d))),
+                 ('Line(shared P.pv(),v)', lambda: Line(shared.pv(), lib.V(d)))]
         objs = []
         for name, th in forms:
             r = lib.call(th)
